@@ -9,8 +9,9 @@ CFG = {
     "level_note": "Tie to the code: differential correspondence of the model with the real newAddressRewriteMapper / findExternalIPs / "
                   "applyHostAddressRewrite / applyHostRewriteForUDPMux / resolveSrflxAddresses / resolveRelayAddresses / "
                   "validateLegacyNAT1To1IPs / legacyNAT1To1Rules / WithAddressRewriteRules (zero mismatches required), plus translation of "
-                  "catchAllSpecificity, defaultAddressRewriteMode, isFamilyAllowed, hasMappings, NetworkType.IsIPv4/IsIPv6 proved equal to the "
-                  "model for all arguments. The correspondence is a sample (see rule), not a proof that the model is the code. Trusted: Lean "
+                  "catchAllSpecificity, defaultAddressRewriteMode, isFamilyAllowed, hasMappings, NetworkType.IsIPv4/IsIPv6, ruleMappingForLookup, "
+                  "mappingForFamily, shouldReplace, hasCandidateType, maybeMarkEmptyMapping and one iteration of addExternalMappings (family "
+                  "targeting) proved equal to the model for all arguments. The correspondence is a sample (see rule), not a proof that the model is the code. Trusted: Lean "
                   "kernel, the harness' rendering of abstract addresses as IP literals, net.ParseIP/ParseCIDR/IPNet.Contains behaving as "
                   "prefix arithmetic. Known findings on the unchanged tree: F3, F15, F16.",
     "components": [{"component": "rewrite", "session_start": "new", "trivial_regex": r"^(bad-op.*|nomapper)$"}],
@@ -29,7 +30,9 @@ CFG = {
             "96-rule pool (884736 triples) x 6 keys; 25000 random lists; legacy lists of length <= 3. Distinct = distinct (operation, output) lines; "
             "non-trivial = output is not bad-op/nomapper.",
     "translated": ["catchAllSpecificity", "defaultAddressRewriteMode", "addressRewriteRuleMapping.isFamilyAllowed",
-                   "addressRewriteRuleMapping.hasMappings", "NetworkType.IsIPv4", "NetworkType.IsIPv6"],
+                   "addressRewriteRuleMapping.hasMappings", "NetworkType.IsIPv4", "NetworkType.IsIPv6",
+                   "ruleMappingForLookup", "addressRewriteRuleMapping.mappingForFamily", "addressRewriteMapper.shouldReplace",
+                   "addressRewriteMapper.hasCandidateType", "maybeMarkEmptyMapping", "addExternalMappings (one iteration)"],
     "trusted_base": ["abstract addresses (family, number) are rendered as IP literals and parsed back by the harness (vRwStr/vRwTok)",
                      "net.ParseIP / net.ParseCIDR / IPNet.Contains are modelled as canonicalisation + prefix arithmetic, not verified",
                      "strings.TrimSpace effects are modelled only as 'blank' tokens (whitespace-only strings)"],
